@@ -328,9 +328,10 @@ func (c *canon) of(v ssa.Value, depth int) string {
 	var s string
 	switch x := v.(type) {
 	case *ssa.Const:
-		s = "c:" + x.Value.String()
 		if x.Value == nil {
 			s = "c:nil"
+		} else {
+			s = "c:" + x.Value.String()
 		}
 	case *ssa.Parameter:
 		if k := c.leafKind(x); k != "" {
@@ -386,18 +387,7 @@ func (c *canon) of(v ssa.Value, depth int) string {
 			es = append(es, c.of(e, depth+1))
 		}
 		sort.Strings(es)
-		// the conditions that control the incoming edges
-		var cs []string
-		for _, pred := range x.Block().Preds {
-			for _, b := range append([]*ssa.BasicBlock{pred}, pred.Preds...) {
-				if _, _, i := ifSuccs(b); i != nil {
-					cs = append(cs, c.of(i.Cond, depth+1))
-				}
-			}
-		}
-		sort.Strings(cs)
-		cs = uniqStrings(cs)
-		s = fmt.Sprintf("phi#%d[%s | %s]", c.ids[x], strings.Join(es, ";"), strings.Join(cs, ";"))
+		s = fmt.Sprintf("phi#%d[%s]", c.ids[x], strings.Join(es, ";"))
 		delete(c.ids, x)
 		return s // not memoised: numbering is context dependent
 	default:
@@ -472,6 +462,19 @@ func ruleAxisSym(w *World, r *Report, fn string) {
 		r.add("AXISSYM", fn+" / outputs", pos, Undecided, "could not locate the x and y outputs")
 		return
 	}
+	{
+		xs, ys := condSets(ke, f)
+		var sw []string
+		for _, x := range xs {
+			sw = append(sw, swapXY(x))
+		}
+		sort.Strings(sw)
+		if strings.Join(sw, "\n") == strings.Join(ys, "\n") {
+			r.add("AXISSYM", fn+" / branch conditions", pos, Discharged, fmt.Sprintf("%d x-conditions and %d y-conditions are isomorphic", len(xs), len(ys)))
+		} else {
+			r.add("AXISSYM", fn+" / branch conditions", pos, Violated, "the branch conditions on x and on y differ: x: "+abbrev(strings.Join(xs, " ; "), 300)+"  y: "+abbrev(strings.Join(ys, " ; "), 300))
+		}
+	}
 	for i, p := range pairs {
 		cx := &canon{ke: ke, f: f, ids: map[ssa.Value]int{}, memo: map[ssa.Value]string{}}
 		cy := &canon{ke: ke, f: f, ids: map[ssa.Value]int{}, memo: map[ssa.Value]string{}}
@@ -488,6 +491,34 @@ func ruleAxisSym(w *World, r *Report, fn string) {
 			r.add("AXISSYM", key, pos, Violated, "x and y are computed differently: x = "+abbrev(sx, 300)+"  vs  y = "+abbrev(sy, 300))
 		}
 	}
+}
+
+// condSets: canonical forms of the branch conditions that mention x-kind
+// (resp. y-kind) leaves.
+func condSets(ke *KindEngine, f *ssa.Function) (xs, ys []string) {
+	for _, b := range f.Blocks {
+		_, _, i := ifSuccs(b)
+		if i == nil {
+			continue
+		}
+		c := &canon{ke: ke, f: f, ids: map[ssa.Value]int{}, memo: map[ssa.Value]string{}}
+		s := c.of(i.Cond, 0)
+		hx := strings.Contains(s, "K:X") || strings.Contains(s, "K:dX")
+		hy := strings.Contains(s, "K:Y") || strings.Contains(s, "K:dY")
+		if hx && !hy {
+			xs = append(xs, s)
+		}
+		if hy && !hx {
+			ys = append(ys, s)
+		}
+		if hx && hy {
+			xs = append(xs, s)
+			ys = append(ys, s)
+		}
+	}
+	sort.Strings(xs)
+	sort.Strings(ys)
+	return
 }
 
 func abbrev(s string, n int) string {
